@@ -24,7 +24,7 @@ for _fn in ("execute_string", "execute_list", "execute_set", "execute_hash", "ex
 for _n, _what in ((2, "redis.call"), (4, "redis.pcall")):
     M("c18_db_arg_lua_closure%d" % _n, ["C18"], "arg_flow", tier="quick",
       desc="the %s closure of LuaEngine::create_lua_context passes the captured db_index (the database the script was started on) unchanged to execute_unified_redis_command" % _what,
-      fn=r"create_lua_context::\{closure#%d\}$" % _n, param="db_index", callee_params=["db", "db_index"])
+      fn=r"create_lua_context::\{closure#%d\}$" % _n, param="db_index", callee_params=["db", "db_index"], param_required=True)
 M("c18_db_arg_lua_bridge", ["C18"], "arg_flow", tier="quick",
   desc="LuaEngine::execute_unified_redis_command passes its db_index unchanged to LuaCommandAdapter::execute_lua_command",
   fn=r"::execute_unified_redis_command$", param="db_index", callee_params=["db", "db_index"])
